@@ -67,6 +67,12 @@ def instances(tier):
     for fam in ("backward_euler",) if quick else ("backward_euler", "implicit_midpoint"):
         for k in ((0, 1) if quick else (0, 1, 2)):
             out.append(dict(id="solver-diverges-%s-k%d" % (fam, k), family=fam, N=2, where="diverge", k=k, exc="RuntimeError", budget=b))
+    # bit-precise corner (QF_FP): a step (t, h) whose two half steps do not land on fl(t+h); Richardson wrappers store the sub-division's
+    # pieces, so their last end time differs from the recorded time by one ulp - the real code is run on the solver's witness
+    for direction in (1, -1):
+        for side in ("beyond", "short"):
+            out.append(dict(id="fp-richardson-halfsteps-%s-%s" % ("fwd" if direction > 0 else "bwd", side), family="euler", N=2, where="fp_richardson", k=0,
+                            exc="RuntimeError", direction=direction, side=side, budget=dict(wall_s=90, max_paths=4)))
     if not quick:
         for fam in ("euler", "rk4", "sympl_euler"):
             for k in (2, 3, 5):
@@ -106,11 +112,126 @@ def _run_catching(fn, *a, **kw):
         return "kbd", e
 
 
+def _fp_halfstep_witness(direction, side, timeout_s=60):
+    """float64 (t, h): fl(fl(t + h/2) + h/2) lies beyond / short of fl(t + h) in the direction of integration"""
+    import z3
+    F = z3.Float64()
+    rm = z3.RNE()
+    t, h = z3.FP("t", F), z3.FP("h", F)
+    half = z3.fpMul(rm, h, z3.FPVal(0.5, F))
+    two = z3.fpAdd(rm, z3.fpAdd(rm, t, half), half)
+    one = z3.fpAdd(rm, t, h)
+    sol = z3.SolverFor("QF_FP")
+    sol.set("timeout", int(timeout_s * 1000))
+    sol.add(z3.fpGT(t, z3.FPVal(-2.0, F)), z3.fpLT(t, z3.FPVal(2.0, F)))
+    if direction > 0:
+        sol.add(z3.fpGT(h, z3.FPVal(1.0 / 64, F)), z3.fpLT(h, z3.FPVal(0.5, F)))
+        sol.add(z3.fpGT(two, one) if side == "beyond" else z3.fpLT(two, one))
+    else:
+        sol.add(z3.fpLT(h, z3.FPVal(-1.0 / 64, F)), z3.fpGT(h, z3.FPVal(-0.5, F)))
+        sol.add(z3.fpLT(two, one) if side == "beyond" else z3.fpGT(two, one))
+    r = sol.check()
+    if r != z3.sat:
+        return str(r), None
+
+    def val(x):
+        bits = sol.model().eval(z3.fpToIEEEBV(x), model_completion=True).as_long()
+        return float(np.array([bits], dtype=np.uint64).view(np.float64)[0])
+    return "sat", (val(t), val(h))
+
+
+def _fp_richardson_real_code(t0, h):
+    """REAL float64 code: Richardson(Euler) with dense output on y' = 0 (every step accepted with the requested size), first step (t0, h),
+    the rhs raises during the second step; then integrate() again.  Returns a record with the findings."""
+    import warnings
+    import desolver as de
+    import desolver.integrators as I
+    from desolver.exception_types import FailedIntegration
+    calls = [0]
+    fault = [None]
+
+    def f(t, y, **kw):
+        calls[0] += 1
+        if fault[0] is not None and calls[0] >= fault[0]:
+            raise RuntimeError("injected")
+        return 0.0 * y
+    out = dict(t0=t0, h=h, problems=[])
+    with warnings.catch_warnings():
+        warnings.simplefilter("ignore")
+        a = de.OdeSystem(f, y0=np.array([1.0]), t=(t0, t0 + 8 * h), dt=h, dense_output=True, rtol=1e-6, atol=1e-6)
+        a.method = I.generate_richardson_integrator(I.EulerSolver, richardson_iter=2)
+        # find the number of rhs calls of the first step, then fault right after it
+        cb_calls = []
+
+        def cb(system):
+            cb_calls.append(calls[0])
+            if len(cb_calls) == 1:
+                fault[0] = calls[0] + 2
+        try:
+            a.integrate(callback=cb)
+            out["problems"].append("no failure raised")
+            return out
+        except FailedIntegration:
+            pass
+        fault[0] = None
+        n = len(a.t)
+        sol = a.sol
+        pieces = len(sol.t_eval)
+        out.update(rows_at_fault=n, pieces_at_fault=pieces, first_step=float(a.t[1] - a.t[0]) if n > 1 else None)
+        per_step = pieces / max(1, n - 1)
+
+        def covered(system):
+            bad = []
+            its = list(system.sol.y_interpolants)
+            for i in range(len(system.t) - 1):
+                lo, hi = sorted((float(system.t[i]), float(system.t[i + 1])))
+                for q in (lo + 0.25 * (hi - lo), lo + 0.75 * (hi - lo)):
+                    if not any(min(float(it.t0), float(it.t1)) <= q <= max(float(it.t0), float(it.t1)) for it in its):
+                        bad.append((i, q))
+            return bad
+        if n < 2:
+            out["problems"].append("no step recorded before the fault")
+            return out
+        if pieces != 2 * (n - 1):
+            out["problems"].append("after the failed call: %d dense pieces for %d recorded steps (2 per step expected)" % (pieces, n - 1))
+        if covered(a):
+            out["problems"].append("after the failed call: recorded steps not covered by the dense output at %r" % (covered(a)[:2],))
+        a.integrate()
+        if len(a.sol.t_eval) != 2 * (len(a.t) - 1):
+            out["problems"].append("after resuming: %d dense pieces for %d recorded steps" % (len(a.sol.t_eval), len(a.t) - 1))
+        if covered(a):
+            out["problems"].append("after resuming: recorded steps not covered by the dense output at %r" % (covered(a)[:2],))
+    return out
+
+
+def _fp_richardson(c, inst):
+    from srx import core
+    if c.symbolic:
+        status, wit = _fp_halfstep_witness(inst["direction"], inst["side"])
+        c.note("qf_fp_result", status)
+        if status == "unknown":
+            raise core.BudgetHit("qf_fp_unknown")
+        if status == "unsat":
+            c.check("c12.fp.richardson_pieces_survive_a_failure", True)
+            return
+        from fractions import Fraction
+        for k, v in zip(("t", "h"), wit):
+            c.assume(c.eq(c.real(k), Fraction(v)))
+        t0, h = wit
+    else:
+        t0, h = float(c.real("t")), float(c.real("h"))
+    rec = _fp_richardson_real_code(t0, h)
+    c.note("real_code_float64", rec)
+    c.check("c12.fp.richardson_pieces_survive_a_failure", not rec["problems"], info=dict(problems=rec["problems"][:3], t0=t0, h=h))
+
+
 def scenario(c, inst):
     import desolver as de
     from desolver.exception_types import FailedIntegration
     if c.symbolic:
         c.ackermann = False
+    if inst["where"] == "fp_richardson":
+        return _fp_richardson(c, inst)
     if inst["where"] == "event":
         return _event_fault(c, inst)
     t0, tf, dt0 = c.real("t0"), c.real("tf"), c.real("dt0")
